@@ -310,6 +310,28 @@ func (p *Plugin) StartOn(c net.Conn, extra ...stub.Option) error {
 	return st.Start(context.Background())
 }
 
+// StartDial creates the stub with the runtime's socket path (no fixed
+// connection), so that the same stub can be started again with Restart.
+func (p *Plugin) StartDial(rt *Runtime, extra ...stub.Option) error {
+	opts := append([]stub.Option{
+		stub.WithPluginName(p.Name), stub.WithPluginIdx(p.Idx), stub.WithSocketPath(rt.Sock),
+		stub.WithOnClose(func() {
+			p.mu.Lock()
+			p.Closed++
+			p.mu.Unlock()
+		}),
+	}, extra...)
+	st, err := stub.New(p, opts...)
+	if err != nil {
+		return err
+	}
+	p.Stub = st
+	return st.Start(context.Background())
+}
+
+// Restart starts the same stub again (on a fresh connection).
+func (p *Plugin) Restart() error { return p.Stub.Start(context.Background()) }
+
 // WaitSynced waits until the plugin's Synchronize handler ran.
 func (p *Plugin) WaitSynced(d time.Duration) bool {
 	select {
@@ -324,15 +346,17 @@ func (p *Plugin) WaitSynced(d time.Duration) bool {
 func (p *Plugin) WaitActive(rt *Runtime, d time.Duration) bool {
 	deadline := time.Now().Add(d)
 	want := p.Idx + "-" + p.Name
-	for time.Now().Before(deadline) {
+	for {
 		for _, n := range adaptation.VerifActiveNames(rt.R) {
 			if n == want {
 				return true
 			}
 		}
+		if !time.Now().Before(deadline) {
+			return false
+		}
 		time.Sleep(time.Millisecond)
 	}
-	return false
 }
 
 // SyncCount returns how often the Synchronize handler ran.
